@@ -454,7 +454,7 @@ example : delApplied patched.u lc true ⟨none, some elValue⟩ [changeable0, ch
 theorem c04_error_unchanged_exact (c : Cfg) (sh : Shape) (h : H) (hw : h.WF) (nw : List Item) (fp fd : FArg)
     (hnf : fastPath c (h.allocValue nw).1 true true fp fd = false)
     (hel : ∀ f, fd.toOpt = some f → f.el = none)
-    (ht : partialTouches c.u sh nw fp.toOpt h.readStore = false)
+    (ht : partialTouches c.u sh true nw fp.toOpt h.readStore = false)
     (herr : ∃ i o, (updateData c sh h true true nw fp fd).2 = .done false i o) :
     (updateData c sh h true true nw fp fd).1.readStore = h.readStore :=
   updateData_error_unchanged c sh hw nw fp fd hnf hel ht herr
@@ -463,7 +463,7 @@ theorem c04_error_unchanged_exact (c : Cfg) (sh : Shape) (h : H) (hw : h.WF) (nw
     rejected on the member /repo probes to and lie inside the region -/
 example : (remoteWrite patched (storeOf [changeable0, fixed1]) [[none, none, none, some 7, none]] (.data ⟨some (selId 1), none⟩) .nil).2
       = .done false 1 none ∧
-    partialTouches patched.u lc [[none, none, none, some 7, none]] (some ⟨some (selId 1), none⟩) (storeOf [changeable0, fixed1]).readStore = false ∧
+    partialTouches patched.u lc true [[none, none, none, some 7, none]] (some ⟨some (selId 1), none⟩) (storeOf [changeable0, fixed1]).readStore = false ∧
     (remoteWrite patched (storeOf [changeable0, fixed1]) [] .nil (.data ⟨some (selId 1), none⟩)).2 = .done false 1 none := by
   decide
 
@@ -471,8 +471,8 @@ example : (remoteWrite patched (storeOf [changeable0, fixed1]) [[none, none, non
     one hypothesis of `c04_error_unchanged_exact` — the identifier-less and the selector write address a writable
     element on an in-place path, the delete names elements -/
 theorem c04_error_unchanged_refuted_is_outside : ∀ c ∈ [head, patched],
-    partialTouches c.u lc [[none, none, none, some 2, none]] none (storeOf [changeable0, fixed1]).readStore = true ∧
-    partialTouches c.u lc [[none, none, none, some 2, none]] (some ⟨some selAll, none⟩) (storeOf [fixed1, changeable2]).readStore = true ∧
+    partialTouches c.u lc true [[none, none, none, some 2, none]] none (storeOf [changeable0, fixed1]).readStore = true ∧
+    partialTouches c.u lc true [[none, none, none, some 2, none]] (some ⟨some selAll, none⟩) (storeOf [fixed1, changeable2]).readStore = true ∧
     (⟨none, some elValue⟩ : Filter).el ≠ none := by
   intro c hc
   simp only [List.mem_cons, List.mem_nil_iff, or_false] at hc
